@@ -100,6 +100,8 @@ def _mk_plugins(log, kind='function'):
 
 def _choose(c, name, n):
     v = c.int(name, 0, n - 1)
+    if getattr(c, 'concrete', False):
+        return v
     return eng().concretize(v.t, limit=64)
 
 
@@ -250,14 +252,15 @@ class IfaceB(Protocol):
 
 
 class ConA:
-    def __init__(self, log):
+    def __init__(self, log, tag='A'):
         self.log = log
+        self.tag = tag
 
     def alpha(self):
         return 1
 
     def abi(self, args):
-        self.log.append('A')
+        self.log.append(self.tag)
         return None
 
 
@@ -274,17 +277,24 @@ class ConB:
 
 
 def h_history_contracts(c, pkg, length):
-    """contracts, contract interfaces and aliases: each position one of 10 operations"""
+    """contracts, contract interfaces and aliases: each position one of 11 operations"""
     F, P = pkg.functions, pkg.parsing
     log = []
     cons = {b'A': ConA(log), b'B': ConB(log)}
+    conA2 = ConA(log, 'A2')              # a different contract object registered under the id of A (re-adding replaces)
     ifaces = {'IfaceA': IfaceA, 'IfaceB': IfaceB}
     ref_c, ref_i, ref_a = {}, set(), {}
     base_ifaces = set(F._contract_interfaces)
     hist = []
     for k in range(length):
-        op = _choose(c, f'op{k}', 10)
-        if op < 2:
+        op = _choose(c, f'op{k}', 11)
+        if op == 10:
+            r = outcome_of(F.add_contract, b'A', conA2)
+            if r[0] == 'ok':
+                ref_c[b'A'] = conA2
+            hist.append(('add_contract', 'A2', r[0]))
+            c.check('add_contract_accepts_contract_matching_an_interface', r[0] == 'ok', got=repr(r)[:120])
+        elif op < 2:
             cid = (b'A', b'B')[op]
             r = outcome_of(F.add_contract, cid, cons[cid])
             # a contract is accepted iff it fulfils at least one registered interface (CanBeInvoked is built in: abi)
@@ -334,7 +344,8 @@ def h_history_contracts(c, pkg, length):
         del log[:]
         r = outcome_of(F.run_script, P.compile_script(f'push d0 push x{cid.hex()} invoke'))
         if cid in ref_c:
-            c.check('active_contract_is_reachable', r[0] == 'ok' and log == [cid.decode()], got=repr(r)[:120], log=list(log))
+            c.check('active_contract_is_reachable', r[0] == 'ok' and log == [getattr(ref_c[cid], 'tag', cid.decode())], got=repr(r)[:120],
+                    log=list(log))
         else:
             c.check('inactive_contract_is_not_reachable', r[0] == 'raise' and not log, got=repr(r)[:120])
     c.reach('history_done')
@@ -343,6 +354,27 @@ def h_history_contracts(c, pkg, length):
 # ------------------------------------------------------------------------------ (iv) independence, (v) caller dicts
 SOURCES = ['true', '!= m [ ] { true } !m [ ]', '!m [ ]', '!= m [ a ] { push a } !m [ x07 ]', '!m [ x09 ]', '@= v [ x01 ] @v',
            'push ~ { !m [ ] }', 'def 0 { true } call d0', 'true return', 'push x01 pop0 @P']
+
+
+def r_history_contracts(inputs, params, obligation):
+    """the harness function itself on the real package (its module-level registries are saved and restored around the run)"""
+    from sx.harness import ConcreteCtx, real_package
+    from sx import loader
+    rp = real_package()
+    saved = {}
+    for m, n in loader._REGISTRIES:
+        d = getattr(getattr(rp, m), n)
+        saved[(m, n)] = {k: (list(v) if isinstance(v, list) else v) for k, v in d.items()}
+    c = ConcreteCtx(inputs)
+    try:
+        h_history_contracts(c, rp, **params)
+    finally:
+        for (m, n), content in saved.items():
+            d = getattr(getattr(rp, m), n)
+            d.clear()
+            for k, v in content.items():
+                d[k] = list(v) if isinstance(v, list) else v
+    return {'reproduced': obligation in c.failed, 'failed': c.failed, 'history': c.inputs.get('history')}
 
 
 def _call(p, name, src):
@@ -468,7 +500,7 @@ HARNESSES = [
                 replay=r_onestep, fresh_pkg=True, signature=_sig),
     HarnessSpec('history_plugins', h_history_plugins, _p_hist, replay=r_history_plugins, fresh_pkg=True, signature=_sig),
     HarnessSpec('history_contracts', h_history_contracts, lambda t: [{'length': n} for n in ((1, 2, 3, 4) if t == 'quick' else (1, 2, 3, 4, 5, 6))],
-                fresh_pkg=True, signature=_sig),
+                fresh_pkg=True, signature=_sig, replay=r_history_contracts),
     HarnessSpec('independence', h_independence, _p_indep, replay=r_independence, fresh_pkg=True, signature=_sig),
     HarnessSpec('caller_dicts', h_caller_dicts, fresh_pkg=True),
 ]
